@@ -192,14 +192,22 @@ def r15_2(ctx: Ctx, rep: Report) -> None:  # noqa: C901
         if n.kind == "stmt" and isinstance(n.ast, ast.Assign) and isinstance(n.ast.targets[0], ast.Subscript) and isinstance(n.ast.value, ast.List) and n.ast.value.elts:
             dict_name = src(n.ast.targets[0].value)
             lit_store = n
+    by_setdefault = False
+    if lit_store is None:
+        # `buckets.setdefault(heading, [item])`: opens the bucket with its heading unless it exists - guarded by itself
+        for n in cfg.live:
+            if n.kind == "stmt" and isinstance(n.ast, ast.Expr) and isinstance(n.ast.value, ast.Call) and isinstance(n.ast.value.func, ast.Attribute) and n.ast.value.func.attr == "setdefault" and len(n.ast.value.args) == 2 and isinstance(n.ast.value.args[1], ast.List) and n.ast.value.args[1].elts:
+                dict_name = src(n.ast.value.func.value)
+                lit_store = n
+                by_setdefault = True
     rep.instance()
     if dict_name is None or lit_store is None:
         rep.violation("Acl.group", "bucket dictionary", "no bucket is opened with its heading remark", where(g))
         return
     # overwrite guard
-    key = src(lit_store.ast.targets[0].slice)
+    key = src(lit_store.ast.value.args[0]) if by_setdefault else src(lit_store.ast.targets[0].slice)
     deps = cfg.transitive_control_deps(lit_store)
-    guarded = False
+    guarded = by_setdefault
     for c, lab in deps:
         if c.kind == "cond" and isinstance(c.ast, ast.Compare) and len(c.ast.ops) == 1 and src(c.ast.comparators[0]) == dict_name:
             if (isinstance(c.ast.ops[0], ast.NotIn) and lab == "T") or (isinstance(c.ast.ops[0], ast.In) and lab == "F"):
